@@ -15,7 +15,10 @@ Supported subset and its source:
   erase [mem] addr | a..b | all, erase unsecure all, enable [mem] addr, jump addr [(arg)], jump_sp sp addr [(arg)],
   version_check sec|nsec v, keystore_to_nv/keystore_from_nv @mem addr, keywrap (id) { load {{kek}} > addr; },
   encrypt (id) { load <file|source> > addr; }
-`call` and `reset` parse, but `SB21Helper` has no handler for them (KeyError): not in the subset.
+`call addr [(arg)]` and `reset` are supported statements of the property (CALL / RESET commands exist in commands.py), but
+`SB21Helper` has no handler for them (KeyError): known finding C19-call-reset.
+The section id written in `section (n)` is the id of the boot section (schema: "ID of the section"); `load_from_config`
+numbers the sections by position instead: known finding C19-section-id.
 -/
 import SpsdkVerif.Spec.BdSem
 import SpsdkVerif.Model.BdStmt
@@ -29,6 +32,8 @@ def intOf (env : Env) (e : Expr) : Option Int :=
   | _ => none
 
 def isAddr (a : Int) : Bool := 0 ≤ a && a ≤ 0xFFFFFFFF
+/-- a value that fits the 32-bit operand fields of a command (larger ones make the export of the SB file fail) -/
+def isU32 (a : Int) : Bool := 0 ≤ a && a ≤ 0xFFFFFFFF
 
 /-- memory id named by an optional memory option -/
 def memIdOf (env : Env) : MemOpt → Option Int
@@ -69,12 +74,18 @@ def hexOfBytes (bs : List UInt8) : String :=
   String.ofList (bs.foldr (fun b acc => Nat.toDigits 16 (b.toNat / 16) ++ Nat.toDigits 16 (b.toNat % 16) ++ acc) [])
 
 /-- the key blob with this id, provided it defines start, end, key and counter -/
-def keyblobOf (kbs : List KeyBlobDef) (id : Int) : Option (Int × Int × String × String) :=
+def keyblobOf (kbs : List KeyBlobDef) (id : Int) : Option (Int × Int × String × String × Bool) :=
   match kbs.find? (fun k => k.id == .i id) with
   | some k =>
     match k.content.get? "start", k.content.get? "end", k.content.get? "key", k.content.get? "counter" with
     | some (.i st), some (.i en), some (.s key), some (.s ctr) =>
-      if isHexStr key && isHexStr ctr then some (st, en, key, ctr) else none
+      if isHexStr key && isHexStr ctr then
+        -- `byteSwap [boolean, optional] - true for byte swap` (elf2sb.md)
+        match k.content.get? "byteSwap" with
+        | none => some (st, en, key, ctr, false)
+        | some (.i v) => some (st, en, key, ctr, v != 0)
+        | some (.s _) => none
+      else none
     | _, _, _, _ => none
   | none => none
 
@@ -133,19 +144,24 @@ def cmdOf (env : Env) (kbs : List KeyBlobDef) : Stmt → Option Cmd
   | .enable opt e => do
     let m ← memIdOf env opt
     let a ← intOf env e
-    some (.enable a 4 m)
+    if isAddr a then some (.enable a 4 m) else none
+  | .call tgt arg => do
+    let a ← intOf env tgt
+    let x ← (match arg with | .arg e => intOf env e | _ => some 0)
+    if isAddr a && isU32 x then some (.call a (.i x)) else none
+  | .reset => some .reset
   | .jump tgt arg => do
     let a ← intOf env tgt
     let x ← (match arg with | .arg e => intOf env e | _ => some 0)
-    if isAddr a then some (.jump a (.i x) none) else none
+    if isAddr a && isU32 x then some (.jump a (.i x) none) else none
   | .jumpSp sp tgt arg => do
     let s ← intOf env sp
     let a ← intOf env tgt
     let x ← (match arg with | .arg e => intOf env e | _ => some 0)
-    if isAddr a then some (.jump a (.i x) (some (.i s))) else none
+    if isAddr a && isU32 x && isU32 s then some (.jump a (.i x) (some (.i s))) else none
   | .versionCheck nsec e => do
     let v ← intOf env e
-    some (.versionCheck (if nsec then 1 else 0) (.i v))
+    if isU32 v then some (.versionCheck (if nsec then 1 else 0) (.i v)) else none
   | .keystoreToNv (.at m) (.addr a) => do
     let m ← intOf env m
     let a ← intOf env a
@@ -157,16 +173,35 @@ def cmdOf (env : Env) (kbs : List KeyBlobDef) : Stmt → Option Cmd
   | .keywrap id blob addr => do
     let i ← intOf env id
     let a ← intOf env addr
-    let (st, en, key, ctr) ← keyblobOf kbs i
-    if isAddr a then some (.loadCrypto "keywrap" a st en key ctr blob) else none
+    let (st, en, key, ctr, _) ← keyblobOf kbs i
+    if isAddr a then some (.loadCrypto "keywrap" a st en key ctr blob false) else none
   | .encrypt id opt d (.addr a) => do
     let i ← intOf env id
     let _ ← memIdOf env opt
     let a ← intOf env a
     let bs ← fileOf env d
-    let (st, en, key, ctr) ← keyblobOf kbs i
-    if isAddr a then some (.loadCrypto "encrypt" a st en key ctr (hexOfBytes bs)) else none
+    let (st, en, key, ctr, swap) ← keyblobOf kbs i
+    if isAddr a then some (.loadCrypto "encrypt" a st en key ctr (hexOfBytes bs) swap) else none
   | _ => none
+
+/-- `call` / `reset`: parsed, but refused by `SB21Helper` (known finding C19-call-reset) -/
+def isCallOrReset : Stmt → Bool
+  | .call _ _ => true
+  | .reset => true
+  | _ => false
+
+/-- `encrypt` with a key blob that asks for byte swapping: the option is ignored (known finding C19-keyblob-byteswap) -/
+def isSwappedEncrypt (env : Env) (kbs : List KeyBlobDef) : Stmt → Bool
+  | .encrypt id _ _ _ => match intOf env id with
+    | some i => match keyblobOf kbs i with
+      | some (_, _, _, _, swap) => swap
+      | none => false
+    | none => false
+  | _ => false
+
+/-- ids of the boot sections: the ids written in the file -/
+def sectionUids (cfg : Config) : Option (List Int) :=
+  cfg.sections.mapM (fun s => match s.1 with | .i v => some v | .s _ => none)
 
 /-- any load of a binary blob -/
 def isBlobLoad : Stmt → Bool
@@ -182,7 +217,11 @@ def isPlainBlobLoad (env : Env) : Stmt → Bool
 /-- program-fuse load of a blob whose byte count the implementation re-derives from the integer value: an 8-byte blob
     starting with four zero bytes is taken for a 4-byte one (known finding C19-prog-blob-zeros) -/
 def isProgBlobLeadingZeros (env : Env) : Stmt → Bool
-  | .load opt (.blob h) _ => memIdOf env opt == some 4 && h.length == 16 && (h.toList.take 8).all (· == '0')
+  | .load opt (.blob h) _ =>
+    memIdOf env opt == some 4 &&
+      (match hexBytes h.toList with
+       | some bs => bs.length == 8 && leWord (bs.take 4) == 0
+       | none => false)
   | _ => false
 
 end SpsdkVerif.Bd.Spec
